@@ -171,6 +171,22 @@ class C11(Prop):
             else:
                 e = ["d", [["a", first]] + [[f"k{i}", m] for i, m in enumerate(more)]]
             out.append(("first-arg", {"k": "prog", "prog": [["RETURN", e]], "lays": self.lays(rng), "ret": dret}))
+        # the same call text twice with its variable re-assigned in between ("a variable evaluates to its most
+        # recent assignment", also for a call that was already seen), and RETURN assigned before the last statement
+        rng = ctx.rng("c11rebind")
+        for _ in range(ctx.pick(400, 6000)):
+            call = Q.gen_call(rng, 1, ["a"], rng.choice(names), reg, dret, 1.0)
+            if rng.random() < 0.6:
+                call = ["c", rng.choice(names), [["v", "a"]] + [Q.gen_expr(rng, 1, ["a"]) for _ in range(rng.randrange(0, 2))]]
+            e1 = Q.gen_expr(rng, 2, [])
+            e2 = Q.gen_expr(rng, 2, [])
+            wrap = rng.choice([lambda c: c, lambda c: ["l", [c]], lambda c: ["c", rng.choice(names), [c]]])
+            prog = [["a", e1], ["x", wrap(call)], ["a", e2], ["y", wrap(call)]]
+            if rng.random() < 0.4:
+                prog += [["RETURN", ["v", "x"]], ["z", call], ["RETURN", ["l", [["v", "RETURN"], ["v", "y"], ["v", "z"]]]]]
+            else:
+                prog += [["RETURN", ["l", [["v", "x"], ["v", "y"]]]]]
+            out.append(("rebind", {"k": "prog", "prog": prog, "lays": self.lays(rng), "ret": dret}))
         # strings
         rng = ctx.rng("c11strings")
         for _ in range(ctx.pick(500, 10000)):
